@@ -340,7 +340,9 @@ func K9() *Entry {
 		"Meta": {{Name: "meta_id", Type: "github.com/hashicorp/terraform-plugin-framework/types.StringType", Computed: true},
 			{Name: "meta_rank", Type: "github.com/hashicorp/terraform-plugin-framework/types.Int64Type", Optional: true},
 			{Name: "meta_flag", Type: "github.com/hashicorp/terraform-plugin-framework/types.BoolType", Optional: true, Computed: true}},
-		"Owner":          {{Name: "owner_rank", Type: "github.com/hashicorp/terraform-plugin-framework/types.Int64Type", Optional: true}},
+		"Owner": {{Name: "owner_rank", Type: "github.com/hashicorp/terraform-plugin-framework/types.Int64Type", Optional: true},
+			// only name and type: none of required / optional / computed
+			{Name: "owner_note", Type: "github.com/hashicorp/terraform-plugin-framework/types.StringType"}},
 		"User.Spec.Meta": {{Name: "spec_meta_note", Type: "github.com/hashicorp/terraform-plugin-framework/types.StringType", Optional: true, Computed: true, PlanModifiers: []string{USFU}}},
 	}
 	// a custom type addressed by full path at one of several occurrences of the message type
